@@ -12,11 +12,11 @@ import (
 // OracleC16 — validator-set checkpoints form a chain an EVM light client can always follow.
 type OracleC16 struct {
 	counters
-	lastIdx   int64 // latest checkpoint index seen (-1 = none)
-	lastSet   []EvmValidator
-	lastTs    uint64
-	accepted  map[uint64]bool // checkpoint index whose step the contract model accepted
-	tried     map[uint64]int
+	lastIdx  int64 // latest checkpoint index seen (-1 = none)
+	lastSet  []EvmValidator
+	lastTs   uint64
+	accepted map[uint64]bool // checkpoint index whose step the contract model accepted
+	tried    map[uint64]int
 }
 
 func NewOracleC16() *OracleC16 {
